@@ -14,10 +14,15 @@ import (
 )
 
 // ---- hook payload description (mirrors Model/L2.v hookp) ----
+// one message of the hook tx (Model/L2.v hmsg): a bank MsgSend to account To, or - with
+// Withdraw set - a MsgInitiateTokenWithdrawal of the hook signer to the L1 address ToL1
 type HookSend struct {
-	To    uint64
-	Denom string
-	Amt   *big.Int
+	To       uint64
+	Denom    string
+	Amt      *big.Int
+	Withdraw bool
+	Sender   string // withdrawal: the Sender string (the signer's address)
+	ToL1     string // withdrawal: the L1 recipient string
 }
 type Hook struct {
 	Kind   string // "none" | "garbage" | "tx"
@@ -37,7 +42,11 @@ func (h Hook) Coq() string {
 	}
 	items := []string{}
 	for _, s := range h.Sends {
-		items = append(items, fmt.Sprintf("(%s, %s, %s)", coqU(s.To), coqStr(s.Denom), coqZ(s.Amt)))
+		if s.Withdraw {
+			items = append(items, fmt.Sprintf("HWithdraw %s %s %s %s", coqStr(s.Sender), coqStr(s.ToL1), coqStr(s.Denom), coqZ(s.Amt)))
+		} else {
+			items = append(items, fmt.Sprintf("HSend %s %s %s", coqU(s.To), coqStr(s.Denom), coqZ(s.Amt)))
+		}
 	}
 	return fmt.Sprintf("(HTx %s %s %s %s)", coqU(h.Signer), coqU(h.TxSeq), coqBool(h.SigOK), coqList(items))
 }
